@@ -65,7 +65,7 @@ theorem riemann_ig_conservation (q : Prob) (hq : q.Admissible) (hd : q.Distinct)
 /-- the driver classifies its default data (Sod) as rarefaction–contact–shock -/
 theorem sod_classify : RiemannIG.classify (toData sod) = .RCS := by
   have h1 : uNCS sod sod.pr < sod.ur := by
-    simp only [uNCS, epv_tree, epv_leaf, sod]
+    simp only [uNCS_eq, sod]
     have e1 : ((1 : ℝ) / (1 / 10) - 1) = 9 := by norm_num
     have s1 : 0 < Real.sqrt (7 / 5 * (1 / 10) / (1 / 8)) := Real.sqrt_pos.mpr (by norm_num)
     have s2 : 0 < Real.sqrt ((7 / 5 + 1) / 2 / (7 / 5) * 1 / (1 / 10) + (7 / 5 - 1) / 2 / (7 / 5)) :=
@@ -75,7 +75,7 @@ theorem sod_classify : RiemannIG.classify (toData sod) = .RCS := by
         / Real.sqrt ((7 / 5 + 1) / 2 / (7 / 5) * 1 / (1 / 10) + (7 / 5 - 1) / 2 / (7 / 5)) := by positivity
     linarith
   have h2 : sod.ur ≤ uRCN sod sod.pr := by
-    simp only [uRCN, epv_tree, epv_leaf, sod]
+    simp only [uRCN_eq, sod]
     have h : ((1 / 10 : ℝ) / 1) ^ (((7 : ℝ) / 5 - 1) / 2 / (7 / 5)) < 1 :=
       Real.rpow_lt_one (by norm_num) (by norm_num) (by norm_num)
     have s1 : 0 < Real.sqrt (7 / 5 * 1 / 1) := Real.sqrt_pos.mpr (by norm_num)
